@@ -94,7 +94,7 @@ async def check_state(st, table, idx, sd, acc):
     ts = list(st["ts"])
     expr, _ = render(ts, rng)
     pk = {f"{p[1]}P": render(list(body), rng)[0] for p, body in table.items() if body and p != "pz"}
-    ahb.set_cer_values(rc={}, fc={}, hints={}, packages=pk)
+    ahb.set_cer_values(rc={}, fc={}, hints={}, packages=pk, hardcoded=(idx % 3 == 0))       # (every third state through the hardcoded evaluators)
     case = {"expr": expr, "tokens": ts, "packages": pk}
     acc.c("resolutions")
     if sum(1 for t in ts if t[0] in "pt") >= 1 and len(ts) >= 3:
